@@ -42,19 +42,37 @@ type world struct {
 	point      int // command crash points passed in the current step
 	writeNo    int // cache-file writes started in the current step
 	crashed    bool
-	maxFail    int // highest status value a command may return
-	allowErr   bool // the runner itself may fail (a command the shell cannot even parse): an error, not a status
+	maxFail    int                 // highest status value a command may return
+	dying      bool                // the kill has happened; the stand-in panic is unwinding
+	atDeath    cacheSnap           // the cache on disk at the moment of the kill
+	allowErr   bool                // the runner itself may fail (a command the shell cannot even parse): an error, not a status
+	writes     map[string][]string // task -> files its commands may rewrite while they run (dependencies of later tasks)
+	murky      map[string]bool     // tasks that rewrote a dependency of their own in the current step
 }
 
 type crash struct{}
 
 // crashPoint is a program point around a command at which the process may be killed.
 func (w *world) crashPoint() {
+	if w.dying {
+		return
+	}
 	if w.crashCmd >= 0 && w.point == w.crashCmd {
-		w.crashed = true
-		panic(crash{})
+		w.die()
 	}
 	w.point++
+}
+
+// die: the process is killed here. A panic stands in for the kill, but unlike a kill a panic
+// still runs the deferred functions of the frames it unwinds - and spok's run() defers its cache
+// write-back (since 3a41d53) - so what is on disk at this very moment is remembered, and put
+// back by invoke once the panic has been caught. Nothing else survives a kill: every invocation
+// builds its SpokFile afresh.
+func (w *world) die() {
+	w.dying = true
+	w.crashed = true
+	w.atDeath = snapshotCache()
+	panic(crash{})
 }
 
 type runner struct{ w *world }
@@ -72,6 +90,20 @@ func (r *runner) Run(cmd string, stream iostream.IOStream, task string, env []st
 		return shell.Result{}, errRunner
 	}
 	st := sym.Int("status"+strconv.Itoa(w.nExec), 0, w.maxFail)
+	// the command's side effect: it may rewrite files that later tasks of the run depend on (a
+	// formatter, a generator). When the file is also a dependency of its own task that task is
+	// "murky" for this step (see inputs.unknown)
+	for _, f := range w.writes[task] {
+		if sym.Bool("rewrites" + strconv.Itoa(w.nExec) + "_" + strconv.Itoa(w.step) + "_" + f) {
+			putFile(f, sym.String("written"+strconv.Itoa(w.nExec)+"_"+strconv.Itoa(w.step)+"_"+f, 1))
+			for _, own := range declared[task].Files {
+				if own == f {
+					w.murky[task] = true
+				}
+			}
+			sym.Reach("command-rewrote-a-later-task's-input")
+		}
+	}
 	w.nExec++
 	w.executed = append(w.executed, execRec{w.step, task, cmd, st})
 	w.crashPoint() // killed after this command ran
@@ -84,6 +116,9 @@ type inputs struct {
 	paths    []string
 	contents []string
 	why      string // why the run that produced this success may not have been recorded
+	// unknown: the task's own commands rewrote one of its own dependencies while they ran, so
+	// "the inputs it completed on" is ambiguous (as started, or as left): no claim until its next clean run
+	unknown bool
 }
 
 func samePaths(a, b []string) bool {
@@ -159,9 +194,16 @@ func History() {
 	allowRm := sym.ParamInt("rmcache", 1) == 1
 	allowMissing := sym.ParamInt("missing", 0) == 1 // a literal dependency file may be absent
 
+	// writes: "A>b.txt,c.txt;B>d.txt": the commands of A may rewrite b.txt and c.txt ...
+	writes := map[string][]string{}
+	for _, part := range strings.Split(sym.ParamStr("writes", ""), ";") {
+		if t, fs, ok := strings.Cut(part, ">"); ok {
+			writes[t] = splitList(fs)
+		}
+	}
 	setupProject(text)
 	defer teardownProject()
-	w := &world{crashCmd: -1, crashWrite: -1, maxFail: sym.ParamInt("maxstatus", 1), allowErr: sym.ParamInt("runerr", 0) == 1}
+	w := &world{writes: writes, crashCmd: -1, crashWrite: -1, maxFail: sym.ParamInt("maxstatus", 1), allowErr: sym.ParamInt("runerr", 0) == 1}
 	last := map[string]*inputs{}
 	// exempt[t]: since its last success, t failed on exactly the inputs of that success (sticky
 	// until the next success; may be symbolic). Its digest is then cleared and it must run again.
@@ -208,7 +250,8 @@ func History() {
 		// --- one invocation
 		force := allowForce && sym.Bool("force"+tag)
 		req := requests[sym.Choice("request"+tag, len(requests))]
-		w.crashCmd, w.crashWrite, w.crashStage, w.point, w.writeNo, w.crashed = -1, -1, 0, 0, 0, false
+		w.crashCmd, w.crashWrite, w.crashStage, w.point, w.writeNo, w.crashed, w.dying = -1, -1, 0, 0, 0, false, false
+		w.murky = map[string]bool{}
 		if s == crashStep {
 			if sym.Choice("crashkind", 2) == 0 {
 				w.crashCmd = sym.Int("crashcmd", 0, 11)
@@ -286,6 +329,10 @@ func History() {
 						sym.Violation("C14/commands-not-run-under-force", r.Task)
 					}
 				}
+				if w.murky[r.Task] || (prev != nil && prev.unknown) {
+					sym.Reach("no-claim-for-a-task-that-rewrote-its-own-input")
+					continue
+				}
 				if r.Skipped {
 					sym.Reach("skipped")
 					// ---- C02: a skipped task executes none of its commands
@@ -328,6 +375,11 @@ func History() {
 			}
 			// ghost update: successful runs become the "last success"
 			for _, r := range results {
+				if w.murky[r.Task] {
+					last[r.Task] = &inputs{valid: true, unknown: true}
+					exempt[r.Task] = false
+					continue
+				}
 				if ran[r.Task] && okRun[r.Task] {
 					in := currentInputs(sf, r.Task)
 					in.why = whyNotRecorded(force, anySkipped, anyNoDeps, !allOK, false)
@@ -335,7 +387,7 @@ func History() {
 					exempt[r.Task] = false
 				} else if ran[r.Task] {
 					in := currentInputs(sf, r.Task)
-					if prev := last[r.Task]; prev != nil && prev.valid && samePaths(in.paths, prev.paths) {
+					if prev := last[r.Task]; prev != nil && prev.valid && !prev.unknown && samePaths(in.paths, prev.paths) {
 						exempt[r.Task] = sym.Or(exempt[r.Task], sameContents(in.contents, prev.contents))
 					}
 				}
@@ -343,7 +395,14 @@ func History() {
 		} else {
 			// error or crash: tasks whose commands completed successfully still count, and a
 			// task that failed on the inputs of its last success is still not up to date
+			for t := range w.murky {
+				last[t] = &inputs{valid: true, unknown: true}
+				exempt[t] = false
+			}
 			for t := range ran {
+				if w.murky[t] {
+					continue
+				}
 				if okRun[t] {
 					in := currentInputs(sf, t)
 					if crashed {
@@ -365,8 +424,11 @@ func History() {
 					}
 				}
 				for t := range failedAny {
+					if w.murky[t] {
+						continue
+					}
 					in := currentInputs(sf, t)
-					if prev := last[t]; prev != nil && prev.valid && samePaths(in.paths, prev.paths) {
+					if prev := last[t]; prev != nil && prev.valid && !prev.unknown && samePaths(in.paths, prev.paths) {
 						exempt[t] = sym.Or(exempt[t], sameContents(in.contents, prev.contents))
 					}
 				}
@@ -453,6 +515,8 @@ func invoke(sf *file.SpokFile, w *world, force bool, req []string) (results []re
 		if r := recover(); r != nil {
 			if _, ok := r.(crash); ok {
 				crashed = true
+				restoreCache(w.atDeath)
+				w.dying = false
 				return
 			}
 			panic(r)
@@ -462,26 +526,26 @@ func invoke(sf *file.SpokFile, w *world, force bool, req []string) (results []re
 	var existed bool
 	if sym.Symbolic() {
 		vfs.WriteHook = func(path string, stage int, data string) {
-			if !strings.HasSuffix(path, "cache.json") || w.crashWrite < 0 {
+			if !strings.HasSuffix(path, "cache.json") || w.crashWrite < 0 || w.dying {
 				return
 			}
 			mine := w.writeNo == w.crashWrite
 			switch stage {
 			case 0: // before the file is touched
 				if mine && w.crashStage == 0 {
-					panic(crash{})
+					w.die()
 				}
 			case 1: // truncated: the file is empty
 				if mine && w.crashStage == 1 {
-					panic(crash{})
+					w.die()
 				}
 				if mine && w.crashStage == 2 {
 					vfs.Files[path].Content = data[:len(data)/2] // a proper prefix is on disk
-					panic(crash{})
+					w.die()
 				}
 			case 2: // complete
 				if mine && w.crashStage == 3 {
-					panic(crash{})
+					w.die()
 				}
 				w.writeNo++
 			}
